@@ -1,3 +1,6 @@
 // C09 scripted plain object: heart_beat / call_out / reset hooks replay scripts from the registry
 #include "/c09/ops.h"
 void reset () { if (oid != "?") { VL ("t reset " + oid); run ("reset"); } }
+// clean_up(): called by the object sweep when nothing has applied to the object for CleanupDuration seconds;
+// returning 1 keeps the object on the list of objects to clean up
+int clean_up (int inherited) { if (oid != "?") { VL ("t cleanup " + oid); run ("cleanup"); } return 1; }
